@@ -367,7 +367,57 @@ def t_environ_e2e(E):
         E.prove(b'[' + txt[eq+1:] + b']' in s2.getvalue(), 'readable through the upper-case name')
 
 
+class _CP(object):
+    """Codepage stand-in: bytes <-> 'unicode' is the identity on a wrapper that keeps symbolic bytes."""
+    _pyvc_trusted = True
+    def bytes_to_unicode(self, b):
+        return ('u', tuple(to_cells(b)))
+    def unicode_to_bytes(self, u):
+        if u == u'':
+            return b''
+        cs = list(u[1])
+        return SBuf(cs, 'bytes') if any(not isinstance(c, int) for c in cs) else bytes(cs)
+
+
+def t_environ_contract(E, set_name, get_name, L):
+    """ENVIRON "name=value" then ENVIRON$("name") in any letter case reads back the value, whatever the
+    host environment already holds (here: a lower-case twin of the name and an unrelated variable);
+    nothing else in the host environment changes. The host environment is a ghost map behind
+    setenvu / getenvu / iterenvu."""
+    from pcbasic.basic import dos
+    host = {u'verif_twin': ('u', (115, 116, 97, 108, 101)), u'OTHER': ('u', (120,))}
+    order = [u'verif_twin', u'OTHER']
+    def _set(I, args, kw):
+        k, v = args
+        if k not in host:
+            order.append(k)
+        host[k] = v
+    E.interp.contracts[dos.setenvu] = _set
+    E.interp.contracts[dos.getenvu] = lambda I, args, kw: host.get(args[0], args[1] if len(args) > 1 else None)
+    E.interp.contracts[dos.iterenvu] = lambda I, args, kw: iter(list(order))
+    vals = values_env(with_strings=True)
+    env = E.new(dos.Environment, vals, _CP())
+    value = E.bytes('value', L, kind='bytes') if L else b''
+    if L:
+        E.assume(And(*[c != 0 for c in to_cells(value)]))
+    arg = new_string(E, vals, (SBuf(list(set_name + b'=') + list(to_cells(value)), 'bytes') if L else set_name + b'='))
+    r = E.call(env.environ_statement_, iter([arg]))
+    E.prove(not r.raised, 'ENVIRON accepts name=value')
+    E.prove(host[u'verif_twin'] == ('u', (115, 116, 97, 108, 101)) and host[u'OTHER'] == ('u', (120,)),
+            'other host variables (also a lower-case twin of the name) are untouched')
+    g = E.call(env.environ_, iter([new_string(E, vals, get_name)]))
+    E.prove(not g.raised, 'ENVIRON$ succeeds')
+    if not g.raised:
+        got = str_cells(E, g.value)
+        E.prove(len(got) == L and (bool(cells_equal(got, list(to_cells(value)))) if L else True),
+                'ENVIRON$ returns the value that was set, the name compared without regard to case')
+
+
 TASKS = [
+    Task('ENVIRON / ENVIRON$ (ghost host environment)', t_environ_contract,
+         cases=[{'set_name': a, 'get_name': b, 'L': L} for a, b in ((b'VERIF_TWIN', b'VERIF_TWIN'), (b'verif_twin', b'Verif_Twin'),
+                                                                     (b'Verif_Twin', b'verif_twin'), (b'NEWVAR', b'newvar'))
+                for L in (0, 1, 5)]),
     Task('Clock.time_', t_time, cases=[{'shape': s} for s in _TIME_SHAPES], covers=('rejected', 'accepted')),
     Task('Clock.date_', t_date, cases=[{'shape': s} for s in _DATE_SHAPES], covers=('rejected', 'accepted')),
     Task('TIME$/DATE$ end to end (bounded)', t_clock_e2e, bounded=True, samples=(400, 2000),
@@ -383,4 +433,4 @@ ASSUMPTIONS = [
     'string splitting is on concrete separator structures (9 TIME$ and 8 DATE$ shapes)',
     'ENVIRON/ENVIRON$ and strftime formatting are only covered by the bounded end-to-end tasks',
 ]
-NOT_COVERED = ['Environment._setenv/_getenv at proof level (codepage and host environment calls)']
+NOT_COVERED = ['the host environment calls themselves (setenvu / getenvu / iterenvu are a ghost map) and the codepage conversion of names and values']
